@@ -261,6 +261,16 @@ func (c *c12) judgeLiteral(P, K string, admissible bool, sample interface{}, hos
 		return
 	}
 	fl := trueFlags(elem)
+	if len(fl) == 0 {
+		for _, k := range cands {
+			if lv, _ := denote(k, sample); lv.Over && len(cands) == 1 {
+				// no accessor could return what the form denotes: keeping
+				// the value as it is, is the one way to keep it right
+				cands = nil
+				c.r.Count("partB.kept_raw_beyond_go_type", 1)
+			}
+		}
+	}
 	if len(cands) == 0 {
 		if len(fl) != 0 {
 			c.viol("inadmissible-literal-accepted", "Is*", cs, fmt.Sprintf("no admissible kind can read %s but flags=%v", jstr(sample), fl))
